@@ -280,6 +280,11 @@ class HTTPRequestParser:
             if connection.lower() != "keep-alive":
                 self.connection_close = True
 
+        if version != "1.1" and "TRANSFER_ENCODING" in headers:
+            # RFC 9112 6.1: the framing of such a message is faulty; process
+            # it, then close the connection
+            self.connection_close = True
+
         if version == "1.1":
             # since the server buffers data from chunked transfers and clients
             # never need to deal with chunked requests, downstream clients
